@@ -301,6 +301,9 @@ func (x *Exec) randomOp(maxEnt int) (GenOp, bool) {
 			kind = 91 + x.rng.Intn(3) // RegF / UnregF
 		case r < 93 && x.Cfg.Observers > 0:
 			kind = 98
+		case r >= 98 && x.Cfg.RegLocked:
+			// a never-seen component type is registered while the world is locked: must panic without effect
+			return mk("RegType"), true
 		default:
 			// any structural operation: kind stays as drawn, excluding Shrink (undefined while locked)
 			if kind >= 94 && kind < 99 {
